@@ -230,7 +230,7 @@ func bfs(c *runner.Ctx, init dirState, desc string) {
 func run(c *runner.Ctx) {
 	scratch = os.Getenv("VERIF_SCRATCH")
 	cli = os.Getenv("VERIF_CLI")
-	menu := inject.FieldMenu()
+	menu := append(inject.FieldMenu(), inject.DupKeyMenu()...) // incl. annotations that repeat a key (idempotence only)
 	emb := inject.Fillers[5]
 	header := "// 生成的文件 ✓"
 	mkFile := func(fs []inject.FieldVariant, hdr bool) ([]byte, int) {
@@ -267,7 +267,7 @@ func run(c *runner.Ctx) {
 	if !c.Thorough() {
 		m3 = nil
 		for i, f := range menu {
-			if i%3 == 0 || strings.HasPrefix(f.Shape, "F13") || strings.HasPrefix(f.Shape, "F11") {
+			if i%3 == 0 || strings.HasPrefix(f.Shape, "F13") || strings.HasPrefix(f.Shape, "F11") || strings.HasPrefix(f.Shape, "D") {
 				m3 = append(m3, f)
 			}
 		}
@@ -310,7 +310,7 @@ func run(c *runner.Ctx) {
 	}
 	pick := []int{}
 	for i, f := range menu {
-		if !f.Annotated || i%4 == 0 || strings.HasPrefix(f.Shape, "F13") || strings.HasPrefix(f.Shape, "F11") || strings.HasPrefix(f.Shape, "F5") {
+		if !f.Annotated || i%4 == 0 || strings.HasPrefix(f.Shape, "F13") || strings.HasPrefix(f.Shape, "F11") || strings.HasPrefix(f.Shape, "F5") || strings.HasPrefix(f.Shape, "D") || strings.HasPrefix(f.Shape, "F17") {
 			pick = append(pick, i)
 		}
 	}
@@ -347,7 +347,7 @@ func main() {
 	runner.Main(runner.Config{
 		Property:  "C07",
 		Technique: "explicit-state BFS over directory states under real CLI runs until closure + repeated library/CLI runs over all generated files; idempotence invariants on every transition",
-		Rule: "(1) every 1-/2-field struct file of the 35-variant field menu (3-field over a reduced menu) injected 4 times in-process and (a slice) 3 times through the CLI: content after run n+1 = after run n, unannotated files unchanged; " +
+		Rule: "(1) every 1-/2-field struct file of the 41-variant field menu (C06's menu + 3 annotations that repeat a key) (3-field over a reduced menu) injected 4 times in-process and (a slice) 3 times through the CLI: content after run n+1 = after run n, unannotated files unchanged; " +
 			"(2) for every ordered pair of file variants: breadth-first search from the directory {a.pb.go, b.pb.go, c.txt} over the transitions {-f a, -f b, -d D, -p D/*.go, -p D/a*.go, -f c.txt}, states keyed by the hash of all file bytes, until closure; " +
 			"on every transition: only targeted files change, unannotated / non-Go files never change, a processed file never changes again, the injected content does not depend on the path; states/transitions are measured; non-trivial = graphs with >2 states",
 		Assumptions: []string{"the CLI binary is built from /repo's working tree at check time", "file menu as in C06"},
